@@ -34,7 +34,7 @@ package main
 //@   assert_call[C19] (*gopoet.FuncSpec).RenderCode : bound_to_own_service_description: methodInfo.ServiceDesc == ite(args.legacyDescNames, legacy_desc_name(sd), exported_desc_name(sd))
 //@   assert_call[C19] (*gopoet.FuncSpec).RenderCode : bound_to_own_stream_index: methodInfo.StreamIndex == nstream(sd, rangeindex#2)
 //@   assert_call[C19] (templates).makeTemplate : call_shape_matches_the_streaming_flags: (md_cs(md) ==> lit_contains(arg1, "c.ch.NewStream(ctx, &{{.ServiceDesc}}.Streams[{{.StreamIndex}}], \"/{{.ServiceName}}/{{.MethodName}}\", opts...)") && !lit_contains(arg1, "SendMsg(") && !lit_contains(arg1, "CloseSend(") && !lit_contains(arg1, "Invoke(")) && (!md_cs(md) && md_ss(md) ==> lit_contains(arg1, "c.ch.NewStream(ctx, &{{.ServiceDesc}}.Streams[{{.StreamIndex}}], \"/{{.ServiceName}}/{{.MethodName}}\", opts...)") && lit_contains(arg1, "x.ClientStream.SendMsg(in)") && lit_contains(arg1, "x.ClientStream.CloseSend()") && !lit_contains(arg1, "Invoke(")) && (!md_cs(md) && !md_ss(md) ==> lit_contains(arg1, "c.ch.Invoke(ctx, \"/{{.ServiceName}}/{{.MethodName}}\", in, out, opts...)") && !lit_contains(arg1, "NewStream("))
-//@   loop loop#1 invariant[C19] every_method_is_rendered_and_added_every_service_registered: calls("(*gopoet.FuncSpec).RenderCode") == calls("(*desc.MethodDescriptor).IsClientStreaming") && calls("(*gopoet.GoFile).AddElement") == calls("(*gopoet.FuncSpec).RenderCode") + calls("(*gopoet.FuncSpec).Printlnf") && (!args.legacyStubs ==> calls("(*gopoet.FuncSpec).Printlnf") == rangeindex + 1 && !called("(*gopoet.FuncSpec).RenderCode")) && (args.legacyStubs ==> calls("(*gopoet.FuncSpec).Printlnf") == 2 * (rangeindex + 1))
+//@   loop loop#1 invariant[C19] every_method_is_rendered_and_added_every_service_registered: calls("(*gopoet.FuncSpec).RenderCode") == calls("(*desc.MethodDescriptor).IsClientStreaming") && calls("(*gopoet.GoFile).AddElement") == calls("(*gopoet.FuncSpec).RenderCode") + calls("(*gopoet.FuncSpec).Printlnf") && (!args.legacyStubs ==> calls("(*gopoet.FuncSpec).Printlnf") == rangeindex + 1 && !called("(*gopoet.FuncSpec).RenderCode")) && (args.legacyStubs ==> calls("(*gopoet.FuncSpec).Printlnf") == 2 * (rangeindex + 1) && calls("(*gopoet.GoFile).AddType") == rangeindex + 1)
 //@   loop loop#2 invariant[C19] every_method_so_far_is_rendered_and_added: calls("(*gopoet.FuncSpec).RenderCode") == calls("(*desc.MethodDescriptor).IsClientStreaming") && calls("(*gopoet.GoFile).AddElement") == calls("(*gopoet.FuncSpec).RenderCode") + calls("(*gopoet.FuncSpec).Printlnf") && args.legacyStubs && calls("(*gopoet.FuncSpec).Printlnf") == 2 * (rangeindex + 1)
 //@   assert_call[C19] (*gopoet.FuncSpec).SetVariadic : call_options_are_variadic: arg1
 //@   ensures[C19] a_file_with_services_is_written_once: len(lastresult("(*desc.FileDescriptor).GetServices")) > 0 ==> calls("gopoet.WriteGoFile") == 1 && result == lastresult("gopoet.WriteGoFile")
@@ -74,7 +74,7 @@ package main
 //@   loop loop#2 invariant[C19] generation_continues_only_while_it_succeeds: called(generateChanStubs) ==> lastresult(generateChanStubs) == nil
 //@   ensures[C19] success_means_every_file_was_generated_without_error: result == nil ==> lastresult(parseArgs, 1) == nil && (called(generateChanStubs) ==> lastresult(generateChanStubs) == nil)
 //@   ensures[C19] failure_has_a_cause: result != nil ==> lastresult(parseArgs, 1) != nil || (called(generateChanStubs) && lastresult(generateChanStubs) != nil)
-//@   assert_call[C19] (*plugins.GoNames).GoPackageForFileWithOverride : import_path_override_only_for_unmapped_files: arg2 == lastresult(parseArgs, 0).importPath && arg2 != ""
+//@   assert_call[C19] (*plugins.GoNames).GoPackageForFileWithOverride : import_path_override_only_for_unmapped_files: arg2 == lastresult(parseArgs, 0).importPath && arg2 != "" && !has(lastresult(parseArgs, 0).importMap, fd_name(arg1))
 //@   assert_call[C19] generateChanStubs : each_file_with_the_parsed_options: arg1 == &names && arg2 == resp && arg3 == lastresult(parseArgs, 0) && lastresult(parseArgs, 1) == nil
 //@   modifies everything
 
